@@ -68,15 +68,37 @@ def pick_study(rng, mdl, p_missing=0.12, p_malformed=0.02):
   return S.study_name(rng.choice(OWNERS + ['ghost']), rng.choice(DISPLAYS + ['nope']))
 
 
-def pick_trial(rng, mdl, want_states=None, p_missing=0.12, p_malformed=0.02):
+NEAR_MISS_KINDS = ['suffix-x', 'slash', 'subresource', 'float', 'pad0', 'plus', 'lead-space', 'trail-space',
+                   'newline', 'fullwidth', 'underscore', 'lead-junk']
+
+
+def near_miss_trial_name(rng, sname, tid, kind=None):
+  kind = kind or rng.choice(NEAR_MISS_KINDS)
+  base = f'{sname}/trials/'
+  return {
+      'suffix-x': f'{base}{tid}x', 'slash': f'{base}{tid}/', 'subresource': f'{base}{tid}/measurements/4',
+      'float': f'{base}{tid}.0', 'pad0': f'{base}0{tid}', 'plus': f'{base}+{tid}', 'lead-space': f'{base} {tid}',
+      'trail-space': f'{base}{tid} ', 'newline': f'{base}{tid}\n',
+      'fullwidth': base + ''.join(chr(0xFF10 + int(ch)) for ch in str(tid)),
+      'underscore': f'{base}{tid}_0' if tid < 10 else f'{base}{str(tid)[0]}_{str(tid)[1:]}',
+      'lead-junk': f'x/{base}{tid}',
+  }[kind]
+
+
+def pick_trial(rng, mdl, want_states=None, p_missing=0.12, p_malformed=0.04):
   """Returns a trial resource name biased towards trials in `want_states`."""
   r = rng.random()
-  if r < p_malformed:
-    return rng.choice(['owners/o1/studies/s1/trials/x', 'owners/o1/studies/s1/trials', 'junk'])
   cands = []
   for sname, st in sorted(mdl.studies.items()):
     for tid, t in sorted(st['trials'].items()):
       cands.append((sname, tid, t['state']))
+  if r < p_malformed:
+    if cands and rng.random() < 0.7:
+      # near misses: strings that *contain* the name of an existing trial, or spell its
+      # id differently; none of them is the name of a trial
+      sname, tid, _ = rng.choice(cands)
+      return near_miss_trial_name(rng, sname, tid)
+    return rng.choice(['owners/o1/studies/s1/trials/x', 'owners/o1/studies/s1/trials', 'junk'])
   if cands and r > p_missing + p_malformed:
     if want_states and rng.random() < 0.7:
       pref = [c for c in cands if c[2] in want_states]
@@ -150,6 +172,11 @@ def gen_call(rng, mdl, weights=None, profile=None):
     names = [o['name'] for st in mdl.studies.values() for ops in st['ops'].values() for o in ops]
     if names and rng.random() < 0.75:
       return {'op': op, 'name': rng.choice(sorted(names))}
+    if names and rng.random() < 0.4:
+      # near miss of an existing operation name (same number, another spelling)
+      nm = rng.choice(sorted(names))
+      head, num = nm.rsplit('/', 1)
+      return {'op': op, 'name': rng.choice([f'{head}/0{num}', f'{head}/+{num}', f'{head}/{num} ', f'{head}/{num}/', f'{head}/{num}x'])}
     sname = pick_study(rng, mdl, p_malformed=0)
     o, s = (sname.split('/') + ['', '', '', ''])[1], (sname.split('/') + ['', '', '', ''])[3]
     return {'op': op, 'name': rng.choice([
@@ -203,16 +230,15 @@ def pre_state_class(mdl, call):
     return 'owner-known' if call.get('owner') in mdl.owners else 'owner-unknown'
   if name is None:
     return '-'
-  sname = name.rsplit('/trials/', 1)[0] if '/trials/' in name else name
+  sname = name.split('/trials/', 1)[0] if '/trials/' in name else name
   st = mdl.studies.get(sname)
   if st is None:
     return 'study-missing'
   sstate = st['study']['state']
   if 'trial' in call:
-    try:
-      tid = int(name.rsplit('/', 1)[1])
-    except ValueError:
+    if not mdl._wellformed_trial(name):
       return f'{sstate}/malformed'
+    tid = int(name.rsplit('/', 1)[1])
     t = st['trials'].get(tid)
     return f'{sstate}/' + (t['state'] if t else 'trial-missing')
   return sstate
